@@ -23,8 +23,9 @@
     checked by observation and not proved), whether Invoke returned an error, whether the error was
     internal (IsInternalErr), the gas left in sc.Gas, and the number of notifications.
 
-    Go panics are explicit results: [StPanic] is the integer division by zero in
-    tuneGasFeeByHeight when GasPrice*MIN_TRANSACTION_GAS wraps to 0. *)
+    Go panics are explicit results: [StPanic] is MustToStorageItem's "too large token balance"
+    (the division by zero in tuneGasFeeByHeight for GasPrice*MIN_TRANSACTION_GAS = 0 was repaired
+    in /repo 96f31c72; the zero-unit test is now one of the generated conditions). *)
 From Coq Require Import List Bool NArith ZArith.
 Import ListNotations.
 From Ont Require Import Lib.Bytes Lib.U64 Model.KV Model.NeoInt Gen.FeeConsts Gen.FeeFormulas.
@@ -132,19 +133,17 @@ Record result := mkRes {
   r_req : option N          (* specification only: the amount handed to the charge's ONG transfer, if one was attempted *)
 }.
 
-(** * tuneGasFeeByHeight *)
-Inductive tuned := TunePanic | TuneVal (g : N).
-
-Definition tune_fee (height tuneHeight gas round cur : N) : tuned :=
+(** * tuneGasFeeByHeight (total since /repo 96f31c72: a zero rounding unit returns the balance) *)
+Definition tune_fee (height tuneHeight gas round cur : N) : N :=
   if tune_active height tuneHeight then
-    if round =? 0 then TunePanic                 (* (gas + gasRound - 1) / gasRound with gasRound = 0 *)
+    if tune_round_zero round then tune_zero_ret gas cur
     else
-      let t := tune_t gas round in
-      if tune_overflow gas round then TuneVal cur
+      let t := tune_t gas round in                 (* round <> 0: the division is defined *)
+      if tune_overflow gas round then cur
       else
         let newGas := tune_new round t in
-        if tune_over_cap newGas cur then TuneVal cur else TuneVal newGas
-  else TuneVal gas.
+        if tune_over_cap newGas cur then cur else newGas
+  else gas.
 
 (** * costInvalidGas: the fee goes through a FRESH CacheDB on the block overlay and is committed;
     the transaction's own cache (still holding the execution's writes) is left as it is — it is
@@ -172,10 +171,7 @@ Definition cost_invalid (tx : txp) (s : state) (g : N) : result :=
   end.
 
 Definition tuned_cost_invalid (env : envp) (tx : txp) (s : state) (gas round cap : N) : result :=
-  match tune_fee (e_height env) (e_tune env) gas round cap with
-  | TunePanic => mkRes s StPanic 0 [] 0 None
-  | TuneVal g => cost_invalid tx s g
-  end.
+  cost_invalid tx s (tune_fee (e_height env) (e_tune env) gas round cap).
 
 (** * HandleInvokeTransaction from `sc := smartcontract.SmartContract{...}` on *)
 Definition exec_part (env : envp) (tx : txp) (ip : interp) (s : state) (is_charge : bool) (avail clg old : N) : result :=
@@ -199,14 +195,11 @@ Definition exec_part (env : envp) (tx : txp) (ip : interp) (s : state) (is_charg
               if fee_lt_new new costGas then
                 tuned_cost_invalid env tx s1 (fee_insuf_gas costGas) (fee_insuf_round (t_price tx)) (fee_insuf_cap old new)
               else
-                match tune_fee (e_height env) (e_tune env) (fee_ok_gas costGas) (fee_ok_round (t_price tx)) (fee_ok_cap old new) with
-                | TunePanic => mkRes s1 StPanic 0 [] 0 None
-                | TuneVal g =>
-                    match ong_transfer (t_signed tx) (t_payer tx) FEE_GOV_ADDR g s1 with   (* chargeCostGas on sc.CacheDB *)
-                    | (s2, Some e) => charge_failed e s2 g
-                    | (s2, None) =>
-                        mkRes (cache_commit s2) StSuccess g (fee_events g) (o_events o + N.of_nat (length (fee_events g))) (Some g)
-                    end
+                let g := tune_fee (e_height env) (e_tune env) (fee_ok_gas costGas) (fee_ok_round (t_price tx)) (fee_ok_cap old new) in
+                match ong_transfer (t_signed tx) (t_payer tx) FEE_GOV_ADDR g s1 with   (* chargeCostGas on sc.CacheDB *)
+                | (s2, Some e) => charge_failed e s2 g
+                | (s2, None) =>
+                    mkRes (cache_commit s2) StSuccess g (fee_events g) (o_events o + N.of_nat (length (fee_events g))) (Some g)
                 end
           end
         else mkRes (cache_commit s1) StSuccess costGas [] (o_events o) None
